@@ -699,9 +699,9 @@ func (x *executor) letGo(ti, done int) {
 	}
 }
 
-// collectGarbage runs a full collection and gives the finalizers it queues the chance to run before the caller goes on.
+// collectGarbage runs a full collection and gives the finalizers it queues the chance to run before the caller goes
+// on: a sentinel object that became unreachable just before the collection has its finalizer queued in the same batch.
 func collectGarbage() {
-	runtime.GC()
 	type sentinel struct{ _ [16]byte }
 	done := make(chan struct{})
 	s := &sentinel{}
@@ -712,6 +712,7 @@ func collectGarbage() {
 	case <-done:
 	case <-time.After(20 * time.Millisecond):
 	}
+	runtime.Gosched()
 }
 
 // overwrite copies v into the memory of t (a caller re-using its buffer) when t is a plain dense tensor of v's
